@@ -540,7 +540,9 @@ def run_check(mod, prop_id, tier, seed, replay=None):
             sys.stderr.write(f"HARNESS-WARNING [{prop_id}] predicate families that did not run: {dead}\n")
     # ---- verdict ----
     os.makedirs(os.path.join(ROOT, "replays"), exist_ok=True)
-    os.makedirs(os.path.join(ROOT, "evidence"), exist_ok=True)
+    # evidence/ describes /repo itself; a rehearsal against a scratch copy (VERIF_REPO=...) writes elsewhere
+    ev_dir = os.path.join(ROOT, "evidence") if os.path.realpath(REPO) == "/repo" else os.path.join(BUILD, "evidence_scratch")
+    os.makedirs(ev_dir, exist_ok=True)
     lines = []
     rc = 0
     for key, h in ctx.known_hits.items():
@@ -582,7 +584,7 @@ def run_check(mod, prop_id, tier, seed, replay=None):
     ev = {"property_id": prop_id, "tier": tier, "seed": seed, "level": level, "coverage": cov,
           "assumptions": list(getattr(mod, "ASSUMPTIONS", [])), "wall_s": round(time.time() - t0, 2),
           "violations": len(ctx.violations) + (1 if (broken and not ctx.violations) else 0)}
-    json.dump(jsonable(ev), open(os.path.join(ROOT, "evidence", prop_id + ".json"), "w"), indent=1)
+    json.dump(jsonable(ev), open(os.path.join(ev_dir, prop_id + ".json"), "w"), indent=1)
     for ln in lines:
         print(ln)
     print(f"[{prop_id}] tier={tier} seed={seed} theorems={props['discharged']}/{props['obligations']} proof_ok={proof_ok} "
